@@ -706,7 +706,11 @@ func c10BackEdgeBounded(p *Prog, b *Bounds, fn *ssa.Function, fs []Fact) (bool, 
 		if call, _ := callOf(unspill(x)); call != nil {
 			id := p.CalleeID(call.Common())
 			if id == "(*bytes.Buffer).Len" || id == "builtin:len" {
-				return true, fmt.Sprintf("back edge taken only while %s < %d", id, cst+1)
+				bound := cst
+				if op == token.LEQ || op == token.GEQ {
+					bound = cst + 1
+				}
+				return true, fmt.Sprintf("back edge taken only while %s < %d", id, bound)
 			}
 		}
 	}
